@@ -214,8 +214,52 @@ def r5(F, rep):
         raise AnalysisBroken("only %d error-rewind sites found" % n)
 
 
+def r6(F, rep, rid="C14-R6"):
+    rep.rule(rid, "record readers rewind on every failure path: in a function that saves the stream position at entry "
+                  "(x = is.tellg()) and rewinds to it somewhere, every return that can only be reached after an extraction "
+                  "(is >> v), a key read or a block read FAILED either is a call of the rewinding helper or is dominated by a "
+                  "seekg to the saved position -- so an incomplete record at the end of a peer's file is read again from "
+                  "its beginning at the next exchange")
+    n = 0
+    seen = set()
+    for f in F.funcs.values():
+        if "/src/" not in f.file or not f.cfg.ok:
+            continue
+        pos = [v for v in f.walk() if v["k"] == "VarDecl" and X.kids(v) and
+               X.mentions(X.kids(v)[0], lambda y: y["k"] == "CXXMemberCallExpr" and X.callee_name(y) == "tellg")]
+        if not pos:
+            continue
+        pd = {v["d"] for v in pos}
+        rew = [c for c in X.calls(f) if (X.callee_name(c) == "seekg" or "error" in X.callee_name(c) or "rewind" in X.callee_name(c)) and
+               any(X.mentions(a, lambda y: y["k"] == "DeclRefExpr" and y.get("d") in pd) for a in X.call_args(c))]
+        if not rew:
+            continue
+        k = 0
+        for r in f.walk():
+            if r["k"] != "ReturnStmt":
+                continue
+            fs, _ = C.guard_facts(f, r)
+            failed = [t for t in fs if t[0] in ("false", "z") and ("op>>(" in t[1] or "read_state_data_key" in t[1] or "read_block" in t[1])]
+            if not failed:
+                continue
+            k += 1
+            key = "%s|%s|#%d" % (f.q if not f.inst else f.q, X.re_strip(failed[0][1])[:50], k)
+            if key in seen:
+                continue
+            seen.add(key)
+            n += 1
+            is_rew = bool(X.kids(r)) and any(X.mentions(r, lambda y, c=c: y is c) for c in rew)
+            dom = any(f.cfg.dominates(c, r) for c in rew)
+            rep.add(rid, key, f.loc(r), "%s: return after a failed `%s` %s" % (f.q, X.re_strip(failed[0][1])[:60],
+                    "rewinds the stream" if (is_rew or dom) else "does NOT rewind the stream to the saved position"), is_rew or dom,
+                    detail="the next read would resume in the middle of the record: it and everything after it is lost", func=f.q)
+    if n < 5:
+        raise AnalysisBroken("%s: only %d failure returns found in record readers" % (rid, n))
+
+
 def run(F, rep, tier):
     r1(F, rep)
     r2_r3(F, rep)
     r4(F, rep)
     r5(F, rep)
+    r6(F, rep)
